@@ -32,6 +32,8 @@ def cell_list(tier):
             dict(target="gauss", kernel="rwm", resample="mult", clustering=False, arm="pool"),
             dict(target="gauss", kernel="rwm", resample="syst", clustering=False, arm="resume_reconfig"),
             dict(target="gauss", kernel="tpcn", resample="mult", clustering=False, vv=0.04),
+            dict(target="bimodal_far", kernel="tpcn", resample="mult", clustering=False, n_steps=5),  # one global mode for two narrow far-apart ones: low acceptance, step sizes adapt
+            dict(target="corr", kernel="rwm", resample="mult", clustering=False, vv=1.0),  # a lenient volume-variation target: the step is ESS-limited, the other branch of the dynamic mode
         ]
     else:
         for tgt in ("corr", "bimodal", "expedge", "halfgauss_hard", "vonmises_periodic", "halfgauss_reflective"):
@@ -44,8 +46,10 @@ def cell_list(tier):
                 cells.append(dict(target="gauss", kernel=k, resample="mult", clustering=False, arm=arm))
                 cells.append(dict(target="bimodal", kernel=k, resample="syst", clustering=True, arm=arm))
             cells.append(dict(target="gauss", kernel=k, resample="syst", clustering=False, arm="resume_reconfig", factor=0.5))
+            cells.append(dict(target="bimodal_far", kernel=k, resample="mult", clustering=False, n_steps=5))
             cells.append(dict(target="gauss", kernel=k, resample="mult", clustering=False, vv=0.04))
             cells.append(dict(target="corr", kernel=k, resample="syst", clustering=True, vv=0.1))
+            cells.append(dict(target="corr", kernel=k, resample="mult", clustering=False, vv=1.0))
     return cells
 
 
